@@ -1007,6 +1007,21 @@ pub fn small_object_cases() -> Vec<GDoc> {
             }
         }
     }
+    // the same key twice (no rule of the 24 forbids it; every occurrence is checked on its own)
+    for kv in [
+        vec![("p", GValue::Int(1)), ("p", GValue::Int(2))],
+        vec![("p", GValue::Int(1)), ("q", GValue::Int(2)), ("p", GValue::Str("s".into()))],
+        vec![("p", GValue::Str("s".into())), ("p", GValue::Int(1))],
+        vec![("q", GValue::Int(1)), ("q", GValue::Str("s".into())), ("p", GValue::Int(1))],
+        vec![("p", GValue::Null), ("p", GValue::Int(1))],
+        vec![("z", GValue::Int(1)), ("p", GValue::Int(1)), ("z", GValue::Int(1))],
+    ] {
+        let obj = GValue::Obj(kv.into_iter().map(|(k, v)| (k.to_string(), v)).collect());
+        for (arg, v) in [("a", obj.clone()), ("l", GValue::List(vec![obj.clone(), obj.clone()]))] {
+            out.push(GDoc(vec![GDef::Op { kind: OpKind::SelSet, name: None, vars: vec![], dirs: vec![],
+                sels: vec![GSel::Field { alias: None, name: "small".into(), args: vec![(arg.to_string(), v)], dirs: vec![], sels: vec![] }] }]));
+        }
+    }
     out
 }
 
